@@ -76,6 +76,14 @@ func (w *l1World) reimport() *core.Violation {
 	}
 	db2 := dbm.NewMemDB()
 	var n2 *node.L1
+	// the new chain continues the height count of the old one, or (a regenesis with the
+	// default initial_height) starts over from 1: block heights recorded before the restart
+	// then lie in the new chain's future
+	ih := w.n.Height() + 1
+	if w.r.Chance(1, 3) {
+		ih = 1
+		w.r.Fault("restart-from-exported-genesis.heights-start-over")
+	}
 	func() {
 		defer func() {
 			if x := recover(); x != nil {
@@ -83,7 +91,7 @@ func (w *l1World) reimport() *core.Violation {
 				w.r.Logf("InitChain from the exported L1 genesis panicked: %v", x)
 			}
 		}()
-		n2 = node.NewL1(db2, &node.L1Genesis{Time: w.now, AppState: st, InitialHeight: w.n.Height() + 1})
+		n2 = node.NewL1(db2, &node.L1Genesis{Time: w.now, AppState: st, InitialHeight: ih})
 	}()
 	if n2 == nil {
 		return w.fail(mismatch{"genesis.import-failed", "l1-import-failed", own, "a fresh L1 node could not be initialised from the exported genesis"})
@@ -99,6 +107,10 @@ func (w *l1World) reimport() *core.Violation {
 	w.r.Fault("restart-from-exported-genesis.L1")
 	w.db, w.n = db2, n2
 	w.prevDig = map[string][32]byte{}
+	if ih == 1 {
+		// what was observed in a block of the old chain says nothing about the block of the same height of the new one
+		w.m.bandObs = map[string]bool{}
+	}
 	w.ownAll = w.p.Prop == "C16"
 	// the fresh node executed one empty block at the next height; its state must still match the model
 	// (for other properties than C16 only what they own is judged here: their message-level
